@@ -55,14 +55,14 @@ def run_case(case):
         counters[k] = counters.get(k, 0) + v
 
     b = progcase.Built(prog).build_sources()
+    rng = derive_rng("C14", shash(prog))
+    method = case.get("shuffle") or rng.choice(["tasks", "tasks", "disk"])
     try:
         b.eval_pd()
-        b.eval_dx()
+        b.eval_dx(method)
     except Exception:
         return {"status": "refused", "counters": {"build_refused": 1}}
     q = b.out_dx
-    rng = derive_rng("C14", shash(prog))
-    method = case.get("shuffle") or rng.choice(["tasks", "tasks", "disk"])
     viol = None
     with dask.config.set({"dataframe.shuffle.method": method}):
         try:
@@ -112,7 +112,9 @@ def run_case(case):
                 unordered = method == "disk" and any("DiskShuffle" in type(x).__name__ for x in lu.walk())
                 for i, (a, c) in enumerate(zip(pf, pu)):
                     bump("partitions_compared")
-                    d = compare(a, c, order=not unordered, index=True, exact=True, dtypes=True)
+                    # inside disk-shuffled plans row order is unspecified, and so are labels that were assigned in that
+                    # order (reset_index after a tied sort): then only what the program defines is compared
+                    d = compare(a, c, order=not unordered, index=(True if not unordered else b.out_pd.index and all(v.index for v in b.pd_vals)), exact=True, dtypes=True)
                     if d:
                         viol = dict(d, oracle="fused_partitions", part=i)
                         break
